@@ -432,6 +432,32 @@ def _reaches_before(fn, a, b):
     return True
 
 
+def _derives(fn, l, src, depth=6):
+    """local l is a copy / borrow / into_iter of local src"""
+    defs = fn.defs()
+    for _ in range(depth):
+        if l == src:
+            return True
+        ds = defs.get(l, [])
+        if len(ds) != 1:
+            return False
+        d = ds[0]
+        if d[2] == "call":
+            t = d[3]
+            if t["f"].get("name") in ("into_iter", "iter", "iter_mut", "enumerate", "rev", "by_ref") and t["args"] and op_local(t["args"][0]) is not None:
+                l = op_local(t["args"][0])
+                continue
+            return False
+        r = d[3]["r"]
+        if r["k"] in ("use", "cast") and op_local(r["o"]) is not None:
+            l = op_local(r["o"])
+        elif r["k"] in ("ref", "raw"):
+            l = place_parts(r["p"])[0]
+        else:
+            return False
+    return False
+
+
 def _shallow(t):
     """replace ('deep',) leaves produced by the depth bound inside duplicated sub-terms: compare up to them"""
     if not isinstance(t, tuple):
@@ -796,6 +822,45 @@ def check_root(res, facts):
         ("squaring (mixed)", (C("k_adicity", 2, n), "TWO_ADICITY"), ("square_in_place",)),
         ("squaring (radix-2)", (C("log2", C("next_power_of_two", n)), "TWO_ADICITY"), ("square_in_place",)),
     ]
+    def roots(t, seen=None, depth=0):
+        """named constants the value may originate from, following merges (phi) through their definitions"""
+        seen = set() if seen is None else seen
+        out = set()
+        if isinstance(t, str):
+            return {t}
+        if not isinstance(t, tuple) or depth > 12:
+            return out
+        if t and t[0] == "phi":
+            if (t[1], t[2]) in seen:
+                return out
+            seen.add((t[1], t[2]))
+            for a in DF.phi_alts(fn, t) or []:
+                out |= roots(norm(a), seen, depth + 1)
+            return out
+        for x in t:
+            if isinstance(x, (tuple, str)):
+                out |= roots(x, seen, depth + 1)
+        return out
+
+    # a loop whose lower bound is a merge of the two arms' adicities (`let (omega, two_adicity) = if .. {..} else {..}`)
+    # stands for one loop per arm: expand it, and pair each bound with the start value of the same arm
+    expanded = {}
+    for (rng, ops), pw in found.items():
+        alts = DF.phi_alts(fn, rng[0]) if isinstance(rng[0], tuple) and rng[0][0] == "phi" else None
+        if alts and len(alts) > 1:
+            l, sel = rng[0][1], rng[0][2]
+            for d, a in zip(fn.defs().get(l, []), alts):
+                a = norm(a)
+                expanded[((a, rng[1]), ops)] = pw
+                if d[2] == "assign" and d[3]["r"]["k"] == "agg" and len(sel) == 1:
+                    others = [norm(E(fn, o)) for i, o in enumerate(d[3]["r"]["ops"]) if str(i) != sel[0]]
+                    rs = set().union(*[roots(o) for o in others]) & {"TWO_ADIC_ROOT_OF_UNITY", "LARGE_SUBGROUP_ROOT_OF_UNITY"}
+                    wantr = {"LARGE_SUBGROUP_ROOT_OF_UNITY"} if a == C("k_adicity", 2, n) else {"TWO_ADIC_ROOT_OF_UNITY"} if a == C("log2", C("next_power_of_two", n)) else None
+                    if wantr is not None and rs and rs != wantr:
+                        rule.bad("ark_ff|FftField::get_root_of_unity|pairing", "the arm that squares %s..TWO_ADICITY times starts from %s instead of %s" % (show(a), sorted(rs), sorted(wantr)), fn.loc)
+        else:
+            expanded[(rng, ops)] = pw
+    found = expanded
     for label, rng, ops in want:
         key = "ark_ff|FftField::get_root_of_unity|%s" % label
         hit = [(k, v) for k, v in found.items() if k[0] == rng and k[1] == ops]
@@ -806,6 +871,9 @@ def check_root(res, facts):
                 rule.ok(key, "for _ in %s..%s { %s }" % (show(rng[0]), show(rng[1]), ops[0]), fn.loc)
         else:
             rule.bad(key, "no loop `for _ in %s..%s` performing %s (loops found: %s): the returned element would not have order n" % (show(rng[0]), show(rng[1]), ops[0], [(show(k[0][0]), show(k[0][1]), k[1]) for k in found]), fn.loc)
+    extra = [k for k in found if k[1] in (("pow",), ("square_in_place",)) and not any(k[0] == rng and k[1] == ops for _, rng, ops in want)]
+    if extra:
+        rule.bad("ark_ff|FftField::get_root_of_unity|extra", "additional powering loop(s) %s" % [(show(k[0][0]), show(k[0][1]), k[1]) for k in extra], fn.loc)
     # rejection conditions
     conds = []
     for b in fn.bbs:
@@ -828,15 +896,7 @@ def check_root(res, facts):
     (rule.bad if missing else rule.ok)(key, "missing rejection condition(s): %s (conditions present: %s)" % (missing, [show(c)[:80] for c in conds]) if missing else "all five rejection conditions present", fn.loc)
     # start values
     key = "ark_ff|FftField::get_root_of_unity|start"
-    starts = set()
-    for bi, si, s in fn.stmts():
-        r = s.get("r")
-        if r and r["k"] == "use":
-            e = E(fn, r["o"])
-            if e in ("TWO_ADIC_ROOT_OF_UNITY", "LARGE_SUBGROUP_ROOT_OF_UNITY"):
-                starts.add(e)
-            if isinstance(e, tuple) and e[0] == "proj" and e[1] == "LARGE_SUBGROUP_ROOT_OF_UNITY":
-                starts.add("LARGE_SUBGROUP_ROOT_OF_UNITY")
+    starts = roots(norm(E(fn, {"c": 0}))) & {"TWO_ADIC_ROOT_OF_UNITY", "LARGE_SUBGROUP_ROOT_OF_UNITY"}
     (rule.ok if starts == {"TWO_ADIC_ROOT_OF_UNITY", "LARGE_SUBGROUP_ROOT_OF_UNITY"} else rule.bad)(key, "omega starts at %s" % sorted(starts), fn.loc)
 
 
@@ -1004,6 +1064,16 @@ def check_pass(res, facts):
                     upd.append(other)
                 if isinstance(e, tuple) and e[0] == "bin" and e[1] == "Add" and e[2] == ("phi", l, ()) and isinstance(e[3], tuple) and e[3][0] == "bin" and e[3][1] == "Mul" and ("phi", m_local, ()) in (e[3][2], e[3][3]):
                     strides.append(e[3][2] if e[3][3] == ("phi", m_local, ()) else e[3][3])
+            # the block stride may also be expressed through an iterator: (0..n).step_by(r*m) or a.chunks_mut(r*m)
+            for bb, t in fn.calls():
+                if t["f"].get("name") in ("step_by", "chunks", "chunks_mut", "chunks_exact", "chunks_exact_mut") and len(t["args"]) == 2:
+                    e = E(fn, t["args"][1])
+                    if isinstance(e, tuple) and e[0] == "bin" and e[1] == "Mul" and ("phi", m_local, ()) in (e[2], e[3]):
+                        # attribute the call to this pass when its result is consumed inside the pass's loop
+                        dl = place_parts(t["d"])[0]
+                        used_in = any(b2 in scc for b2, t2 in fn.calls() if any(op_local(a) == dl or (op_local(a) is not None and _derives(fn, op_local(a), dl)) for a in t2["args"]))
+                        if bb in scc or used_in:
+                            strides.append(e[2] if e[3] == ("phi", m_local, ()) else e[3])
             if upd != [radix]:
                 problems.append("m is advanced by %s instead of %s" % ([show(u) for u in upd], show(radix)))
             if strides != [radix]:
